@@ -19,6 +19,13 @@ CHECKS = {
         note="Trusted: the reference machine's environment model; hook H4 permutes exactly the two symbol sets the compiler derives slot order from.",
         design="§5 C02",
     ),
+    "C04": dict(
+        category="exploration",
+        technique="deterministic simulation with a resource monitor: the stack pointer is sampled at every instruction boundary of loops of n tail calls (seeded compositions of tail contexts, arities, mutual recursion), with sparse collections and slices composed",
+        text="Seeded search over loop shapes: 1-3 procedures calling each other in a cycle through chains of up to three of 23 tail contexts with caller/callee arities 0-4 with and without rest parameters; every family is run for n = 10, 10^3, 10^5 iterations and the stack-pointer high-water mark (hook H1/H2, sampled before every instruction) must be identical for all n, the stack capacity unchanged and the value (done n). No schedule is in the statement; the simulator contributes the monitor over simulated time and composes collections/slices on a quarter of the runs.",
+        note="Intra-instruction stack peaks are not sampled (bounded by argument count). eval loops are capped at 2*10^4 iterations.",
+        design="§5 C04",
+    ),
     "C05": dict(
         category="exploration",
         technique="deterministic simulation of sessions with first-class continuations: seeded histories in which later top-level forms re-enter stored continuations, under collection schedules and slicing, checked against a reference CEK machine with first-class continuations",
@@ -46,6 +53,13 @@ CHECKS = {
         text="After every collection of the C03 schedule families the auditor checks that each allocated cell is reachable from the roots; garbage loops of 11 allocation kinds x 3 live-set sizes, split into forms and slices with a randomised initial heap chunk, must hold no more heap capacity, stack capacity, cells in use, interned symbols or global slots after 10n iterations than after n. Sampling of programs and schedules.",
         note="Trusted: auditor traversal (conservative about jump offsets for I2); 'stops growing' is decided as not-larger at 10n than at n with n past warm-up (quick: 3e3/1e4, thorough: 1e4/1e5).",
         design="§5 C12",
+    ),
+    "C14": dict(
+        category="exploration",
+        technique="deterministic simulation of operation histories over an aliased object pool: every operation checked against a reference store with object identity, identity observed through unique-marker mutations, collections and slices composed",
+        text="Seeded operation sequences (4-12 operations, each third one a unique-marker mutation through an alias) over a pool of proper/improper/tail-sharing lists, nested and empty vectors and an association list; arguments are chosen from the reference store's actual shapes with boundary indices (-1, 0, len-1, len, len+1, 2^31, 2^63); after every operation the result and the contents of all pool objects must equal the reference store's, an expected error must be an error that changed nothing, and a panic is a violation. A third of the runs add forced collections, a fifth are sliced.",
+        note="Trusted: the reference machine's list/vector primitives written from R7RS 6.4/6.8. eq?/eqv? on pairs are not judged (not listed by C14).",
+        design="§5 C14",
     ),
     "C18": dict(
         category="exploration",
